@@ -30,6 +30,7 @@ func c11Check(c *hist.Case, r *evid.Rec) []evid.Disc {
 	inTransit := map[int]map[uint16]bool{} // per connection: identifiers of QoS>0 PUBLISH received and not completed
 	entitled := map[int]bool{}
 	leaked := map[int]bool{}
+	staleAck := map[int]bool{}
 	recSent := map[int]map[uint16]bool{}
 	everRec := map[int]bool{}
 	resent := map[int]bool{}
@@ -60,6 +61,12 @@ func c11Check(c *hist.Case, r *evid.Rec) []evid.Disc {
 					leaked[s.Peer] = true
 				}
 			case refmqtt.PUBACK, refmqtt.PUBCOMP:
+				if !inTransit[s.Peer][s.Sent.PacketID] {
+					// the client completes an exchange of its resumed session that the broker did not resend on this
+					// connection: the broker had forgotten the message (the deferred-send path deletes its record after
+					// writing it) and now hands out send quota for it
+					staleAck[s.Peer] = true
+				}
 				delete(inTransit[s.Peer], s.Sent.PacketID)
 				delete(recSent[s.Peer], s.Sent.PacketID)
 			case refmqtt.PUBREC:
@@ -102,6 +109,9 @@ func c11Check(c *hist.Case, r *evid.Rec) []evid.Disc {
 					}
 					if leaked[o.Peer] {
 						sig = "C11-receive-maximum-exceeded-after-clients-own-pubrel"
+					}
+					if sig == "C11-receive-maximum-exceeded" && staleAck[o.Peer] {
+						sig = "C11-receive-maximum-exceeded-after-ack-of-message-the-broker-forgot"
 					}
 					ds = append(ds, evid.D(sig, "step %d: the client declared Receive Maximum %d; %d QoS>0 PUBLISH packets are now unacknowledged on connection #%d (latest: %s)", s.I, R, len(inTransit[o.Peer]), o.Peer, o.P))
 				}
